@@ -98,6 +98,12 @@ fn apply(env: &BDDEnv<usize>, op: &str, a: &[B], vs: &[usize], n: i64, la: &[B],
         "retf" => D(env.retain_choice_bottom_up(g(0), TruthTableEntry::False)),
         "reta" => D(env.retain_choice_bottom_up(g(0), TruthTableEntry::Any)),
         "clean" => D(env.clean(g(0))),
+        // `clean` on a structurally equal diagram in allocations of its own (as built in another environment): what comes
+        // back must be the table's node all the same
+        "cleanf" => {
+            fn copy(b: &BDD<usize>) -> B { match b { BDD::Choice(t, v, f) => Rc::new(BDD::Choice(copy(t), *v, copy(f))), BDD::True => Rc::new(BDD::True), BDD::False => Rc::new(BDD::False) } }
+            D(env.clean(copy(a[0].as_ref())))
+        }
         _ => unreachable!(),
     }
 }
@@ -397,7 +403,9 @@ pub fn c13(out: &mut dyn Write, tier: &str, rng: &mut Rng, st: &mut Stats) {
                 let keep = Rc::clone(&regs[ai[0]]);
                 for r in regs.iter_mut() { *r = Rc::clone(&keep); }
             }
-            let res = match guarded(std::panic::AssertUnwindSafe(|| apply(&env, if op == "keepone" { "reta" } else { op }, &a, &vs, n, &la, &lb))) {
+            let foreign_copy = op == "clean" && rng.chance(1, 2);
+            if foreign_copy { st.hit("op.clean.of-a-foreign-copy"); }
+            let res = match guarded(std::panic::AssertUnwindSafe(|| apply(&env, if op == "keepone" { "reta" } else if foreign_copy { "cleanf" } else { op }, &a, &vs, n, &la, &lb))) {
                 Ok(r) => r,
                 Err(msg) => {
                     steps.push(format!("{} => PANIC {} # 0 # 1 # 1", lhs, msg.replace(';', ",").replace('#', " ").replace('|', " ")));
